@@ -379,7 +379,8 @@ def run(chk):
                 cx = Ctx(c.p.names, c.p.arrays, fresh, tags, c.p.tagtext)
                 try:
                     ex = export_stmt(table[r.name].children, cx)
-                    getattr(c, which)[r.name] = (sx(ex), cx.verbatim_bad)
+                    # an empty schedule (e.g. an empty ELSE body, which the writer drops) is `skip`
+                    getattr(c, which)[r.name] = (sx(ex).replace("(seqs)", "(skip)"), cx.verbatim_bad)
                 except minif.Unsupported as e:
                     getattr(c, which)[r.name] = (None, str(e))
             if c.impl[r.name][0] is not None:
